@@ -230,6 +230,9 @@ func c08Exec(r *vf.Run, k c08Case) []finding {
 			wantKey = "ECDSA"
 		}
 		r.Outcome(fmt.Sprintf("reached/verified/key-kind=%d", k.Spec.SMIME))
+		if k.Spec.Boundary != "" {
+			r.Outcome("reached/verified/caller-fixed-boundary")
+		}
 		if res.KeyType != wantKey {
 			add("key-type/"+rn, "%s: signed with %s, want %s", rn, res.KeyType, wantKey)
 		}
@@ -400,6 +403,12 @@ func c08Specs(thorough bool) []c08Case {
 										cs = append(cs, c08Case{Spec: v, Renders: 2, Ks: []int{0, 0}, Mod: mod, FailAt: fa})
 									}
 								}
+								if np+ne+na > 1 && (thorough || n%2 == 0 || mod == "none") {
+									// a caller-fixed boundary on a message with inner multiparts
+									w := v
+									w.Boundary = "caller-fixed-boundary-smime-01"
+									cs = append(cs, c08Case{Spec: w, Renders: 2, Ks: []int{0, 0}, Mod: mod})
+								}
 								if thorough || n%4 == 0 || mod == "none" {
 									// the larger ECDSA curves
 									for _, kk := range []int{3, 4} {
@@ -447,7 +456,7 @@ func init() {
 				r.Incomplete("runtime map-iteration seam not available: map order is sampled")
 			}
 			if r.Fork(r.Workers) {
-				r.Reached("reached/verified/hist=0/signapi=0", "reached/verified/hist=1/signapi=0", "reached/verified/hist=2/signapi=0", "reached/verified/hist=3/signapi=0", "reached/verified/hist=4/signapi=0", "reached/verified/hist=0/signapi=1", "reached/verified/hist=0/signapi=2", "reached/verified/hist=0/signapi=3", "reached/verified/hist=0/signapi=4", "reached/verified/signed-after-unsigned-renders", "reached/verified/after-failed-render", "reached/verified/map-order-switch", "reached/verified/key-kind=1", "reached/verified/key-kind=2", "reached/verified/key-kind=3", "reached/verified/key-kind=4")
+				r.Reached("reached/verified/hist=0/signapi=0", "reached/verified/hist=1/signapi=0", "reached/verified/hist=2/signapi=0", "reached/verified/hist=3/signapi=0", "reached/verified/hist=4/signapi=0", "reached/verified/hist=0/signapi=1", "reached/verified/hist=0/signapi=2", "reached/verified/hist=0/signapi=3", "reached/verified/hist=0/signapi=4", "reached/verified/signed-after-unsigned-renders", "reached/verified/after-failed-render", "reached/verified/map-order-switch", "reached/verified/key-kind=1", "reached/verified/key-kind=2", "reached/verified/key-kind=3", "reached/verified/key-kind=4", "reached/verified/caller-fixed-boundary")
 				return
 			}
 			cases := c08Specs(r.Thorough)
